@@ -309,6 +309,15 @@ func TestRegistryMachine(t *testing.T) {
 				}
 				m.flags["direct-create-on-published"] = true
 			},
+			"remove": func(t *rapid.T) {
+				m.t = t
+				n := rapid.SampledFrom(allNames).Draw(t, "name")
+				// RemoveSingleton is part of the registry interface: afterwards nothing of the name is visible
+				m.reg.RemoveSingleton(n)
+				m.log("remove(%s)", n)
+				*m.st[n] = nameState{attempts: m.st[n].attempts}
+				m.flags["removed"] = true
+			},
 			"": func(t *rapid.T) { m.t = t; m.check() },
 		})
 		var labels []string
